@@ -22,7 +22,7 @@ CHECKS = {
    text="per generated file, every crash point of an interrupted copy (exhaustive 0..len) and every listed structural field x {smaller, larger, +1, -1}, alone and composed, over seeded layouts incl. TEXT-like segments last in file; outcome must be an exception, the intact content, or the reference reading of self-consistent bytes.",
    note="trusted: reference loader implements the documented rules (incl. one-past-end DATA convention and the tolerated TEXT ending); garbage blocks of correct length, short reads, EIO not modelled"),
  "C14": dict(cat="exploration", ref="DESIGN.md 3 (C14)", technique="seeded stored-byte fault simulation + bounded exhaustive walk, differential vs left-to-right reference tokenizer",
-   text="all strings over {delimiter,a,b} up to length 9 (quick) / 13 (thorough) for primary and supplemental segments, plus seeded dictionaries over a rich alphabet and every printable delimiter, intact and with 1-3 stored-byte faults, read through read_fcs_text_segment and (inside generated files on the simulated disk) through FCSFile; outcome judged against a three-valued reference tokenizer.",
+   text="all strings over {delimiter,a,b} up to length 9 (quick) / 14 (thorough) for primary and supplemental segments, plus seeded dictionaries over a rich alphabet and every printable delimiter, intact and with 1-3 stored-byte faults, read through read_fcs_text_segment and (inside generated files on the simulated disk) through FCSFile; outcome judged against a three-valued reference tokenizer.",
    note="trusted: models/fcs_ref.tokenize; three don't-care classes (leading-delimiter-run-only segment, warned ending with >= 4 trailing delimiters, duplicated keyword)"),
  "C17": dict(cat="fault_enumeration", ref="DESIGN.md 3 (C17)", technique="deterministic simulation of stored-field faults (absent / well-formed / ill-formed optional keywords) vs reference metadata derivation",
    text="presence x well-formed-format x ill-formedness lattice of every optional keyword named by the property, time channel absent / any case / duplicated, all versions and data types; file written to the simulated disk, loaded through FCSData, every attribute and accessor compared with an independent derivation; loading and accessors must not raise.",
